@@ -54,7 +54,7 @@ prop("C03",
 
 prop("C04",
      [("T1", T.T1, K01, {}), ("T2", T.T2, K01, {}), ("T3", T.T3, K01, {"want_stream": False}),
-      ("S6", S.S6, K01, {}), ("S7", S.S7, K01, {}), ("S1", S.S1, K01, {}), ("T4", T.T4, ("K1",), {}), ("A1", T.A1, K01, {}), ("A2", R.A2, K01, {}), ("S4", S.S4, K01, {}), ("S6b", S.S6b_bitsets, K01, {}), ("L5", R.L5, K01, {}), ("T5", T.T5, K01, {}), ("N7", B.N7, K01, {}), ("T6", T.T6, K01, {}), ("P2", T.P2, K01, {}),
+      ("S6", S.S6, K01, {}), ("S7", S.S7, K01, {}), ("S1", S.S1, K01, {}), ("T4", T.T4, ("K1",), {}), ("A1", T.A1, K01, {}), ("A2", R.A2, K01, {}), ("S4", S.S4, K01, {}), ("S6b", S.S6b_bitsets, K01, {}), ("L5", R.L5, K01, {}), ("T5", T.T5, K01, {}), ("N7", B.N7, K01, {}), ("T6", T.T6, K01, {}), ("P2", T.P2, K01, {}), ("O3b", R.O3b, ("K1",), {}),
       ("S2", S.S2, K01, {}), ("S3", S.S3, K01, {}), ("IM", S.S5_interrupt_map, ("K1",), {"rule": "IM"}),
       ("R3", B.R3, ("K0",), {"parts": ("structures", "counts")}), ("R4", B.R4, ("K0",), {})],
      K01,
@@ -115,7 +115,7 @@ prop("C06",
 prop("C11",
      [("R3", B.R3, K04, {"parts": ("graph-field",)}), ("W1", B.W1, K04, {}), ("B3", B.B3, K04, {}), ("R2", B.R2, K04, {"strict_order": True}),
       ("R1", B.R1, K04, {}), ("K", B.C13_rules, K04, {}), ("P1", B.P1, K04, {}), ("E", B.C16_rules, K04, {}),
-      ("ID", B.ID_rules, K04, {}), ("R6", B.D2_coverage, K04, {}), ("R7", B.R7, K04, {}), ("N", ST.N_rules, ("K0",), {})],
+      ("ID", B.ID_rules, K04, {}), ("R6", B.D2_coverage, K04, {}), ("R7", B.R7, K04, {}), ("N", ST.N_rules, ("K0",), {}), ("D1", B.D1, K04, {})],
      K04,
      "Decides B1 (phase order: ranks, then augmentation, then counts and structure copies, all on the same graph which becomes FnGraph.graph), "
      "B2 (no add_node/remove/clear/retain reaches the user's Dag from build()), B3 (the only added edge is Edge::Data, control dependent on "
@@ -128,7 +128,7 @@ prop("C11",
 prop("C12",
      [("D1", B.D1, K04, {}), ("D2", B.D2, K04, {}), ("D3", B.D3, K04, {}), ("D4", B.D4, K04, {}),
       ("K", B.C13_rules, K04, {}), ("E", B.C16_rules, K04, {}), ("R2", B.R2, K04, {"strict_order": True}), ("B3", B.B3, K04, {}),
-      ("D4e", lambda ctx: R.edge_eq_rule(ctx, "D4"), K04, {}), ("D1r", lambda ctx: B.rank_ord_rule(ctx, "D1"), K04, {})],
+      ("D4e", lambda ctx: R.edge_eq_rule(ctx, "D4"), K04, {}), ("D1r", lambda ctx: B.rank_ord_rule(ctx, "D1"), K04, {}), ("ID", B.ID_rules, K04, {})],
      K04,
      "Decides D1 (ids listed in ascending id order and sorted by a stable sort whose comparator is ranks[first] vs ranks[second], ascending), "
      "D2 (the Data edge goes from the outer element to an element at a later position of the same sorted list), D3 (no hash-ordered container, "
@@ -174,7 +174,7 @@ prop("C07",
      [("F", R.F_rules, K01, {}), ("S6", S.S6, K01, {"roles_filter": ("RESULT",)}), ("T1", T.T1, K01, {"kinds": ("FAILED",)}),
       ("O4", R.O4, K01, {}), ("S7", S.S7, K01, {}),
       ("B1", S.opts_frame, K01, {"fields": ("StreamOrder",)}), ("B2", S.order_wiring, K01, {}),
-      ("R2", B.R2, ("K0",), {"strict_order": False}), ("R3", B.R3, ("K0",), {"parts": ("structures", "counts")}), ("S1", S.S1, K01, {}), ("R6", B.D2_coverage, ("K0",), {})],
+      ("R2", B.R2, ("K0",), {"strict_order": False}), ("R3", B.R3, ("K0",), {"parts": ("structures", "counts")}), ("S1", S.S1, K01, {}), ("R6", B.D2_coverage, ("K0",), {}), ("R1", B.R1, ("K0",), {})],
      K01,
      "Decides F1 (on the Err arm of the user future exactly one awaited send on the RESULT channel carries that error), F2 (from the Err arm every "
      "path to the done-send passes through the release of the done-sender), F3 (RESULT capacity monotone in node_count; its receiver is drained only "
@@ -208,7 +208,7 @@ prop("C09",
 
 prop("C10",
      [("L1", R.L1, K01, {}), ("L2", R.L2, K01, {}), ("L3", R.L3, K01, {}), ("S6", S.S6, K01, {"roles_filter": ("READY",)}),
-      ("L4", R.L4, K01, {}), ("S2", S.S2, K01, {}), ("R3", B.R3, ("K0",), {"parts": ("structures", "counts")}), ("S1", S.S1, K01, {})],
+      ("L4", R.L4, K01, {}), ("S2", S.S2, K01, {}), ("R3", B.R3, ("K0",), {"parts": ("structures", "counts")}), ("S1", S.S1, K01, {}), ("A1", T.A1, K01, {}), ("S4", S.S4, K01, {"liveness": True})],
      K01,
      "Decides L1 (`limit` flows unchanged from each of the 12 public parameters into StreamExt::for_each_concurrent's limit argument, whose stream is the READY stream) "
      "L2 (fold/try_fold paths are sequential - StreamExt::fold / try_fold or one `while let .. next().await` loop - and go on only after the user future's Ready arm), "
